@@ -38,7 +38,7 @@ FUNCTIONS = ['codegen_inv', 'codegen_hitzer_inv', 'codegen_shirokov_inv', 'power
 ASSUMPTIONS = ['coefficients are reals: identities are exact (floating-point rounding for d>=6 is outside)',
                'every claim is "for all operands whose recorded denominators are non-zero"',
                'float literals in generated code (n*s/i in the Shirokov scheme) are snapped to the nearest rational (1e-12 relative)']
-BOUNDS = {'quick': 'all (p,q,r) d<=3 (dense and sparse), d=4 dense for 3 signatures + sparse, d=5 <=5 blades, d=6,7 <=3 blades plus structured long-minimal-polynomial patterns; division/inverse histories with several denominators on wrapper / registered routes; exists-queries d<=2 all subsets, d=3 <=3 blades; exactness clause d<=5 (no float constant meets a coefficient); numerator and denominator histories under wrapper / register; concrete float accuracy on operands of condition number <= 2e4 in d = 3..7',
+BOUNDS = {'quick': 'all (p,q,r) d<=3 (dense and sparse), d=4 dense for 3 signatures + sparse, d=5 <=5 blades, d=6,7 <=3 blades plus structured long-minimal-polynomial patterns; division/inverse histories with several denominators on wrapper / registered routes; exists-queries d<=2 all subsets, d=3 <=3 blades; exactness clause d<=5 (no float constant meets a coefficient); numerator and denominator histories under wrapper / register; concrete float accuracy on operands of condition number <= 2e4 in d = 3..7; d=6,7 operands with the scalar part stored second / last',
           'thorough': 'd=4 dense all (p,q,r), d=5 <=6 blades, d=6,7 <=4 blades, d=8 <=2 blades; exists-queries as quick'}
 OUTSIDE = ['dense operands in d >= 5 (generation time / solver unknown)', 'exists-queries for dense d >= 3', 'floating-point rounding', 'complex coefficients']
 OPTS = {'rlimit': 400_000_000, 'canary_every': 8}
